@@ -23,6 +23,12 @@ pub struct C12Checker {
     /// without a user configuration directory MathCAT re-reads prefs.yaml on every call: values that were not set
     /// through set_preference (NavMode written by navigation commands) may fall back to the file value at any call
     no_user_dir: bool,
+    /// every accepted set_preference, in order (replayed into the fresh reference session)
+    accepted: Vec<(String, String)>,
+    /// the user's prefs.yaml was deleted: like every disappearing file this is not noticed by the time-stamp check
+    /// (a failed mtime lookup counts as "unchanged"); nothing in the statement covers it, so the comparison with a
+    /// fresh session (which does not see the file) is switched off for the rest of the run
+    user_prefs_removed: bool,
 }
 
 /// preferences whose value MathCAT derives from others (Language / DecimalSeparator) or rewrites itself (navigation)
@@ -56,7 +62,7 @@ pub fn normalise_language(value: &str) -> Option<String> {
 
 impl C12Checker {
     pub fn new(t: &Trace, _s: usize) -> C12Checker {
-        C12Checker { names: vec![], model: BTreeMap::new(), bool_prefs: HashSet::new(), api_set: HashSet::new(), file_event_pending: false, before_outputs: None, initialised: false, no_user_dir: !t.world.user_config_dir }
+        C12Checker { names: vec![], model: BTreeMap::new(), bool_prefs: HashSet::new(), api_set: HashSet::new(), file_event_pending: false, before_outputs: None, initialised: false, no_user_dir: !t.world.user_config_dir, accepted: vec![], user_prefs_removed: false }
     }
 
     fn snapshot(&mut self, s: &mut Sess) -> BTreeMap<String, String> {
@@ -126,6 +132,12 @@ impl Checker for C12Checker {
                     }
                 }
             }
+            Op::SetPref(name, value) if !self.initialised => {
+                // before set_rules_dir there is no table to check against, but an accepted call still counts
+                if res.is_ok() {
+                    self.accepted.push((name.clone(), value.clone()));
+                }
+            }
             Op::SetPref(name, value) if self.initialised => {
                 let known = self.model.contains_key(name);
                 let is_float = pools::FLOAT_PREFS.contains(&name.as_str());
@@ -168,6 +180,7 @@ impl Checker for C12Checker {
                             return;
                         }
                         s.probe("read_back_ok");
+                        self.accepted.push((name.clone(), value.clone()));
                         self.model.insert(name.clone(), expected);
                         self.api_set.insert(name.clone());
                         // everything else is unchanged, except documented derivations
@@ -247,7 +260,54 @@ impl Checker for C12Checker {
         s.state_hash(h);
     }
 
+    fn on_check(&mut self, s: &mut Sess, kind: &str, _args: &serde_json::Value) {
+        if kind != "prefs_vs_fresh" || !self.initialised {
+            return;
+        }
+        if self.user_prefs_removed {
+            s.probe("observed_removed_user_prefs_file");
+            return;
+        }
+        // The preference values are a function of the preference files and of the accepted set_preference calls:
+        // a fresh session on the same files that is given the same accepted calls must read back the same values.
+        if self.model.get("CheckRuleFiles").map(|v| v.as_str()) == Some("None") {
+            s.probe("prefs_vs_fresh_skipped_no_file_checking");
+            return;
+        }
+        let Some(dir) = s.rules_dir.clone() else { return };
+        let _ = s.call(&Op::SetMathml(ExprRef::Lit("<math><mi>x</mi></math>".into()))); // lets a pending re-read happen
+        let snap = self.snapshot(s);
+        let fs = s.world.lock().fs.clone();
+        let names = self.names.clone();
+        let accepted = self.accepted.clone();
+        let r = reference_prefs(s, &fs, &dir, &accepted, &names, !self.no_user_dir);
+        for (n, v) in &snap {
+            if DERIVED.contains(&n.as_str()) {
+                continue; // written by MathCAT itself (navigation, Language=Auto, separators)
+            }
+            if r.get(n) != Some(v) {
+                let api = if self.api_set.contains(n) { "a preference set through the API" } else { "a preference that was never set through the API" };
+                s.violation_g(
+                    "preferences-not-reproducible",
+                    format!("{} differs from a fresh session with the same files and the same accepted set_preference calls", api),
+                    "preference differs from a fresh session with the same files and accepted calls".into(),
+                    format!("{}: session {:?}, fresh session {:?}\naccepted calls replayed: {:?}", n, v, r.get(n), accepted),
+                );
+                return;
+            }
+        }
+        s.probe("prefs_equal_fresh_session");
+        self.model = snap;
+        self.file_event_pending = false;
+    }
+
     fn after_env(&mut self, s: &mut Sess, ev: &EnvEvent, outcome: &str) {
+        if matches!(ev, EnvEvent::RemoveUserPrefs) && outcome == "applied" {
+            self.user_prefs_removed = true;
+        }
+        if matches!(ev, EnvEvent::WriteUserPrefs { .. }) && outcome == "applied" {
+            self.user_prefs_removed = false;
+        }
         if matches!(ev, EnvEvent::Touch { .. } | EnvEvent::WriteUserPrefs { .. } | EnvEvent::RemoveUserPrefs | EnvEvent::EditSysPref { .. }) && outcome == "applied" {
             self.file_event_pending = true;
             s.probe("prefs_file_event");
@@ -294,17 +354,24 @@ pub fn random_trace(seed: u64, names: &[String]) -> Trace {
                         0 => EnvEvent::Touch { path: format!("{}/prefs.yaml", MOUNT_A) },
                         1 => EnvEvent::Touch { path: user_prefs_path().to_string_lossy().to_string() },
                         2 => EnvEvent::WriteUserPrefs { content: format!("---\n  Speech:\n    Verbosity: {}\n    SpeechStyle: {}\n  Braille:\n    BrailleCode: \"{}\"\n", rng.pick(pools::VERBOSITY), rng.pick(pools::SPEECH_STYLES), rng.pick(&["Nemeth", "UEB", "CMU"])) },
-                        3 => EnvEvent::EditSysPref { mount: MOUNT_A.into(), name: rng.pick(&["Verbosity", "NavVerbosity", "BrailleNavHighlight", "Language"]).to_string(), value: rng.pick(&["Terse", "Verbose", "Off", "sv", "Medium"]).to_string() },
+                        3 => {
+                            let (name, value) = valid_file_pref(&mut rng);
+                            EnvEvent::EditSysPref { mount: MOUNT_A.into(), name, value }
+                        }
                         _ => EnvEvent::RemoveUserPrefs,
                     };
                     s.push(Step::Env(ev));
                     // something that makes MathCAT look at the files again
                     s.push(Step::Call(rng.pick(&[Op::Speech, Op::SetMathml(ExprRef::Pool(2)), Op::Braille(IdRef::Empty)]).clone()));
+                    if rng.chance(0.5) {
+                        s.push(Step::Check { kind: "prefs_vs_fresh".into(), args: serde_json::Value::Null });
+                    }
                 }
             }
         }
     }
     s.push(Step::Call(Op::SetMathml(ExprRef::Pool(rng.below(n_valid)))));
+    s.push(Step::Check { kind: "prefs_vs_fresh".into(), args: serde_json::Value::Null });
     t.sessions = vec![s];
     t
 }
@@ -356,6 +423,31 @@ pub fn directed(names: &[String]) -> Vec<Trace> {
                 Step::Call(Op::SetMathml(ExprRef::Pool(5))),
             ],
         ));
+    }
+    // a rejected request must leave no trace: when the files later change that very preference the session follows them
+    let cmp = || Step::Check { kind: "prefs_vs_fresh".into(), args: serde_json::Value::Null };
+    for (name, bad, file_value) in [("Language", "zh", "es"), ("Verbosity", "", "Terse"), ("BrailleNavHighlight", "", "Off"), ("NavVerbosity", "", "Terse")] {
+        let mut steps = vec![];
+        if !bad.is_empty() {
+            steps.push(set(name, bad));
+        }
+        steps.push(set("AutoZoomOut", "maybe"));
+        steps.push(set("Overview", "yes"));
+        steps.push(set("UseSpacesAroundAllOperators", "1"));
+        steps.push(Step::Env(EnvEvent::Clock { ms: 1000 }));
+        steps.push(Step::Env(EnvEvent::EditSysPref { mount: MOUNT_A.into(), name: name.into(), value: file_value.into() }));
+        steps.push(Step::Env(EnvEvent::EditSysPref { mount: MOUNT_A.into(), name: "AutoZoomOut".into(), value: "false".into() }));
+        steps.push(Step::Env(EnvEvent::EditSysPref { mount: MOUNT_A.into(), name: "Overview".into(), value: "true".into() }));
+        steps.push(Step::Env(EnvEvent::EditSysPref { mount: MOUNT_A.into(), name: "UseSpacesAroundAllOperators".into(), value: "true".into() }));
+        steps.push(Step::Call(Op::SetMathml(ExprRef::Pool(5))));
+        steps.push(cmp());
+        // the same for a value equal to the current one (accepted: it must then override the file)
+        steps.push(set("SpeechStyle", "ClearSpeak"));
+        steps.push(Step::Env(EnvEvent::Clock { ms: 1000 }));
+        steps.push(Step::Env(EnvEvent::EditSysPref { mount: MOUNT_A.into(), name: "SpeechStyle".into(), value: "SimpleSpeak".into() }));
+        steps.push(Step::Call(Op::SetMathml(ExprRef::Pool(5))));
+        steps.push(cmp());
+        v.push(mk(format!("rejected-set-then-file-changes-{}", name), true, steps));
     }
     // language flows
     v.push(mk(
